@@ -1,0 +1,89 @@
+//go:build verif
+
+package NoKV
+
+import (
+	"sort"
+
+	"github.com/feichai0017/NoKV/lsm"
+	"github.com/feichai0017/NoKV/manifest"
+	"github.com/feichai0017/NoKV/utils"
+)
+
+// This file is compiled only with the build tag `verif` (verification harness in
+// /verif). It exposes existing internals; it does not re-implement engine logic.
+
+// VerifLSM exposes the LSM handle (for synchronous rotate/flush/compaction hooks).
+func (db *DB) VerifLSM() *lsm.LSM { return db.lsm }
+
+// VerifVlogFiles lists value-log file ids per bucket plus the active fid.
+func (db *DB) VerifVlogFiles() (files map[uint32][]uint32, active map[uint32]uint32) {
+	files = map[uint32][]uint32{}
+	active = map[uint32]uint32{}
+	if db.vlog == nil {
+		return
+	}
+	for b, mgr := range db.vlog.managers {
+		if mgr == nil {
+			continue
+		}
+		fids := append([]uint32(nil), mgr.ListFIDs()...)
+		sort.Slice(fids, func(i, j int) bool { return fids[i] < fids[j] })
+		files[uint32(b)] = fids
+		active[uint32(b)] = mgr.ActiveFID()
+	}
+	return
+}
+
+// VerifRewriteVlog runs valueLog.rewrite(bucket, fid) directly (bypassing the
+// sampling heuristic of doRunGC) under the same mutual exclusion runGC uses.
+// Returns utils.ErrNoRewrite when fid is the active file or unknown.
+func (db *DB) VerifRewriteVlog(bucket, fid uint32) error {
+	vlog := db.vlog
+	if vlog == nil {
+		return utils.ErrNoRewrite
+	}
+	select {
+	case vlog.garbageCh <- struct{}{}:
+		defer func() { <-vlog.garbageCh }()
+	default:
+		return utils.ErrRejected
+	}
+	if !vlog.tryStartBucketGC(bucket) {
+		return utils.ErrRejected
+	}
+	defer vlog.finishBucketGC(bucket)
+	mgr, err := vlog.managerFor(bucket)
+	if err != nil {
+		return err
+	}
+	if fid >= mgr.ActiveFID() {
+		return utils.ErrNoRewrite
+	}
+	found := false
+	for _, f := range mgr.ListFIDs() {
+		if f == fid {
+			found = true
+		}
+	}
+	if !found {
+		return utils.ErrNoRewrite
+	}
+	if pending := vlog.filterPendingDeletes([]manifest.ValueLogID{{Bucket: bucket, FileID: fid}}); len(pending) == 0 {
+		return utils.ErrNoRewrite
+	}
+	return vlog.rewrite(bucket, fid)
+}
+
+// VerifWatchdogRunOnce runs one WAL watchdog pass synchronously (if enabled).
+func (db *DB) VerifWatchdogRunOnce() bool {
+	if db.walWatchdog == nil {
+		return false
+	}
+	db.walWatchdog.RunOnce()
+	return true
+}
+
+// VerifNextTxnTs returns the oracle's next commit timestamp.
+func (db *DB) VerifNextTxnTs() uint64 { return db.orc.nextTxnTs.Load() }
+
